@@ -19,6 +19,8 @@ for seed in sys.argv[1:]:
     if rc != 0:
         res["error"] = "patch does not apply: " + out[-200:]
         print(json.dumps(res)); continue
+    evp = f"/verif/evidence/{pid}.json"
+    ev_backup = open(evp).read() if os.path.exists(evp) else None
     try:
         t0 = time.time()
         checks = [pid] + [p for p in sys.argv[1:0]]
@@ -46,6 +48,9 @@ for seed in sys.argv[1:]:
     finally:
         sh(["git", "-C", "/repo", "checkout", "--", "."])
         sh(["git", "-C", "/repo", "clean", "-fdq"])
+        # the evidence committed under /verif/evidence describes the unchanged tree: put it back
+        if ev_backup is not None:
+            open(evp, "w").write(ev_backup)
     if os.path.abspath(seed).startswith("/verif/seeded/"):
         keep = {k: res.get(k) for k in ("exit", "caught", "violations", "broken_obligations", "stream_disagreements", "signatures", "summary", "wall_s")}
         keep["tier"] = os.environ.get("SEED_TIER", "quick")
